@@ -366,7 +366,9 @@ def finish(ctx):
     ctx.assumptions += [
         "the translator's structural recognition of the wrapped-handler call (parameter call / Next on a parameter / embedded wrapped client) "
         "covers what adapters use; anything else is `.unknown` and rejected",
-        "a call statement inside the block branch is the fallback / default rejection (its content is not inspected)",
+        "a call statement inside the block branch is the fallback / default rejection; whether it stops the handler chain is decided by its callee name and the "
+        "framework table in Sentinel.Model.AdapterIR (the configured / default fallback option is trusted to stop the chain)",
+        "the framework table (return-stops, stop calls) is as read from the framework sources in the module cache; dynamically confirmed for gin, iris, gear, fiber, goframe",
         "events of non-driven adapters follow the IR semantics validated on the driven ones",
     ]
     if ctx.tier == "thorough" and not ctx.violations:
@@ -402,7 +404,7 @@ META = {
                   "(`decide`) of the conformance predicate over the whole table; IR semantics validated by driving the real adapters in-process"),
     "level_text": ("lean/Sentinel/Props/C19.lean: `all_adapters_conform` — every entry point of the *current* pkg/adapters tree (table regenerated "
                    "from the syntax trees on each run) that is not a recorded finding conforms in all six scenarios (blocked/admitted x handler "
-                   "ok/err/panic): entry asked first; blocked => handler not run and rejection produced; admitted => handler once, exit exactly "
+                   "ok/err/panic): entry asked first; blocked => handler not run (incl. by the framework advancing the chain itself where returning alone does not stop it: gin, hertz, iris, gear) and rejection produced; admitted => handler once, exit exactly "
                    "once and last, handed-back error traced.  `scenarios_complete` makes the scenario list the whole space; general lemmas "
                    "(canonical shape conforms, dropped defer / exit-after-call / fall-through block branch fail, dead code after return, "
                    "unknown / nil-deref rejected) do not depend on the table.  Recorded findings have `_witness` theorems on literal copies; a "
